@@ -3,7 +3,7 @@
 From Coq Require Import QArith Qcanon List String Bool.
 Import ListNotations.
 From S2 Require Import Base.Num Base.Arr Model.Expr Model.Struct Model.Rates Spec.RatesSpec
-     Proofs.NumQc Proofs.ExprLemmas Proofs.ParamProofs Props.Examples.
+     Model.Run Model.Api Proofs.NumQc Proofs.ExprLemmas Proofs.ParamProofs Proofs.RunExt Props.Examples.
 
 (* any expression (arithmetic, piecewise, interpolation, of parameters, time and state): replacing the
    named parameter k by the literal v = running with k := v *)
@@ -49,6 +49,15 @@ Theorem C09_inputs_sound :
     (forall k, In k (flow_params f) -> p k = q k) -> weight_spec O p t x f = weight_spec O q t x f.
 Proof. exact weight_env_ext. Qed.
 Print Assumptions C09_inputs_sound.
+
+(* ... and for the whole run: two parameter sets that agree on model.get_input_parameters() give the
+   same initial population, trajectory and derived outputs, for every model and both fixed-step
+   solvers (so values supplied for other names, or left over from a build, cannot influence results) *)
+Theorem C09_inputs_sufficient_for_the_run :
+  forall (O : NumOps) (T : NumTheory O) (m : model) (s : solver) (p q : env O),
+    (forall k, In k (input_parameters m) -> p k = q k) -> run_model O m s p = run_model O m s q.
+Proof. exact input_parameters_sufficient. Qed.
+Print Assumptions C09_inputs_sufficient_for_the_run.
 
 Local Open Scope string_scope.
 Example C09_nonvacuous :
